@@ -872,6 +872,13 @@ Q(id='C02.tree_merge_order', props=['C02', 'C10', 'C16'], cls='B', harness='c02_
   trusted=[TRUST_MSG, 'do_align replaced at the call site by a contract over ghost state (harness/c02_tree_order.c); alloc_aln_mem / free_aln_mem / sort_tasks: counting harness stubs',
            'OpenMP pragmas are not seen by the verifier (serial semantics); their order is the static fact omp_tree_merge_order'],
   assumptions=['bounded: the four guide-tree shapes over 3 and 4 sequences (concrete), thread count symbolic; the recursion itself is the real one'])
+Q(id='C15.write_dispatch', props=['C15', 'C06', 'C05'], cls='P', harness='c15_write_dispatch.c', entry='h_c15_write_dispatch',
+  shapes=lambda tier: [dict(name=w, defs=dict(KV_WORD=k)) for k, w in enumerate(('msf', 'clu', 'fasta', 'fa', 'none'))],
+  mode='dfcc', replace=['write_msa_fasta', 'write_msa_msf', 'write_msa_clu'], unwind=8, timeout=600, replayable=False,
+  funcs=['kalign_write_msa', 'parse_format_argument'],
+  srcs=['lib/src/msa_alloc.c', 'lib/src/msa_op.c', 'lib/src/msa_misc.c', 'lib/src/alphabet.c', 'lib/src/tlmisc.c'],
+  trusted=[TRUST_MSG, 'the three writers replaced at the call sites by which-writer / argument contracts (each is checked by C15.writers)', 'strstr: textbook loop stub'],
+  assumptions=['alignment status and writer failure symbolic; one query per format word (msf, clu, fasta, fa, none): the five words are the whole domain the CLI documents'])
 Q(id='C04.kalign_read_input.protocol', props=['C04', 'C05'], cls='P', harness='c04_read_protocol.c', entry='h_c04_read_protocol',
   mode='dfcc', replace=['read_file_stdin', 'detect_alignment_format', 'read_fasta', 'read_msf', 'read_clu', 'detect_alphabet', 'detect_aligned', 'set_sip_nsip', 'free_in_buffer', 'merge_msa', 'kalign_free_msa'],
   unwind=4, timeout=600, replayable=False, funcs=['kalign_read_input', 'check_for_sequences'],
